@@ -84,6 +84,123 @@ impl mahf::problems::Evaluate for Probing {
     }
 }
 
+/// A user-written mutation operator (public `Mutation` trait) run through the `mutation()` helper: writes `s` into every
+/// solution it is handed; at its `fail_at`-th call (1-based, 0 = never) it fails, either after having written
+/// (`validate_first = false`: move, then check) or before touching the solution.
+#[derive(Clone, Serialize)]
+struct UserMutation {
+    s: u32,
+    fail_at: usize,
+    validate_first: bool,
+    #[serde(skip)]
+    seen: Arc<AtomicU32>,
+}
+impl mahf::components::mutation::Mutation<P> for UserMutation {
+    fn mutate(&self, solution: &mut u32, _: &P, _: &mut State<P>) -> ExecResult<()> {
+        let k = self.seen.fetch_add(1, Ordering::SeqCst) as usize + 1;
+        if k == self.fail_at && self.validate_first {
+            return Err(eyre::eyre!("the step would leave the trust region"));
+        }
+        *solution = self.s;
+        if k == self.fail_at {
+            return Err(eyre::eyre!("left the trust region"));
+        }
+        Ok(())
+    }
+}
+impl Component<P> for UserMutation {
+    fn execute(&self, problem: &P, state: &mut State<P>) -> ExecResult<()> {
+        mahf::components::mutation::mutation(self, problem, state)
+    }
+}
+
+/// A user-written selection (member `i` twice) through the `selection()` helper, optionally failing.
+#[derive(Clone, Serialize)]
+struct UserSelection {
+    i: usize,
+    fail: bool,
+}
+impl mahf::components::selection::Selection<P> for UserSelection {
+    fn select<'a>(&self, population: &'a [Individual<P>], _: &mut mahf::Random) -> ExecResult<Vec<&'a Individual<P>>> {
+        if self.fail {
+            return Err(eyre::eyre!("nothing to select"));
+        }
+        Ok(vec![&population[self.i], &population[self.i]])
+    }
+}
+impl Component<P> for UserSelection {
+    fn execute(&self, problem: &P, state: &mut State<P>) -> ExecResult<()> {
+        mahf::components::selection::selection(self, problem, state)
+    }
+}
+
+/// A user-written replacement (parents followed by offspring) through the `replacement()` helper, optionally failing
+/// after it has been handed both populations.
+#[derive(Clone, Serialize)]
+struct UserReplacement {
+    fail: bool,
+}
+impl mahf::components::replacement::Replacement<P> for UserReplacement {
+    fn replace(&self, mut parents: Vec<Individual<P>>, offspring: Vec<Individual<P>>, _: &mut mahf::Random) -> ExecResult<Vec<Individual<P>>> {
+        if self.fail {
+            return Err(eyre::eyre!("no survivors"));
+        }
+        parents.extend(offspring);
+        Ok(parents)
+    }
+}
+impl Component<P> for UserReplacement {
+    fn execute(&self, problem: &P, state: &mut State<P>) -> ExecResult<()> {
+        mahf::components::replacement::replacement(self, problem, state)
+    }
+}
+
+/// After a failing helper: 1 = the population(s) are still on the stack (several are merged into one, bottom first,
+/// so that the record shows every individual that is still in the state), 0 = the stack lost them (an empty population
+/// stands in, the driver goes on from there).
+fn settle_stack(state: &mut State<'static, P>) -> i64 {
+    let mut pops = state.populations_mut();
+    if pops.len() == 0 {
+        pops.push(Vec::new());
+        return 0;
+    }
+    while pops.len() > 1 {
+        let top = pops.pop();
+        pops.current_mut().extend(top);
+    }
+    1
+}
+
+/// Registers an evaluator of `kind` (0 sequential, 1 parallel on the default pool, 4 probing) under identifier `I`.
+fn register_as<I: mahf::identifier::Identifier>(state: &mut State<P>, kind: u32) {
+    match kind {
+        4 => state.insert_evaluator_as::<I>(Probing),
+        1 => state.insert_evaluator_as::<I>(Parallel::<P>::new()),
+        _ => state.insert_evaluator_as::<I>(Sequential::<P>::new()),
+    }
+}
+/// The `state_init` of a `Scope` is a plain function pointer: one function per (identifier, kind).
+fn scope_init<I: mahf::identifier::Identifier, const KIND: u32>(state: &mut State<P>) -> ExecResult<()> {
+    register_as::<I>(state, KIND);
+    Ok(())
+}
+fn scope_init_none(_: &mut State<P>) -> ExecResult<()> {
+    Ok(())
+}
+
+/// Stores the evaluation counter visible where it runs.
+#[derive(Clone, Serialize)]
+struct PeekEvals {
+    #[serde(skip)]
+    seen: Arc<AtomicU32>,
+}
+impl Component<P> for PeekEvals {
+    fn execute(&self, _: &P, state: &mut State<P>) -> ExecResult<()> {
+        self.seen.store(state.try_get_value::<Evaluations>().unwrap_or(u32::MAX), Ordering::SeqCst);
+        Ok(())
+    }
+}
+
 fn comp(problem: &P, state: &mut State<'static, P>, c: Box<dyn Component<P>>) -> Value {
     match caught(|| c.execute(problem, state)) {
         Ok(Ok(())) => r("ok", 0),
@@ -171,6 +288,52 @@ fn exec(problem: &P, state: &mut State<'static, P>, a: &Value, k: usize) -> Valu
                 comp(problem, state, PopulationEvaluator::new())
             }
         }
+        "register" => guarded(&mut || {
+            // i (0-based here): 0 insert_evaluator, 1 insert_evaluator_as::<Global>, 2 insert_evaluator_as::<A>
+            match i {
+                0 => match s {
+                    4 => state.insert_evaluator(Probing),
+                    1 => state.insert_evaluator(Parallel::<P>::new()),
+                    _ => state.insert_evaluator(Sequential::<P>::new()),
+                },
+                1 => register_as::<mahf::identifier::Global>(state, s),
+                _ => register_as::<A>(state, s),
+            }
+            0
+        }),
+        "evaluate_id" => {
+            if i == 0 {
+                comp(problem, state, PopulationEvaluator::<mahf::identifier::Global>::new_with())
+            } else {
+                comp(problem, state, PopulationEvaluator::<A>::new_with())
+            }
+        }
+        "evaluate_scoped" => {
+            use mahf::{components::Scope, identifier::Global};
+            // body's identifier i (0 Global, 1 A); the scope's own state_init registers: 9 nothing, k kind k under the
+            // same identifier, 10 + k kind k under the other identifier
+            let same = i == 0;
+            let init: fn(&mut State<P>) -> ExecResult<()> = match (s, same) {
+                (0, true) | (10, false) => scope_init::<Global, 0>,
+                (1, true) | (11, false) => scope_init::<Global, 1>,
+                (4, true) | (14, false) => scope_init::<Global, 4>,
+                (0, false) | (10, true) => scope_init::<A, 0>,
+                (1, false) | (11, true) => scope_init::<A, 1>,
+                (4, false) | (14, true) => scope_init::<A, 4>,
+                _ => scope_init_none,
+            };
+            let counter = Arc::new(AtomicU32::new(0));
+            let seen = Arc::new(AtomicU32::new(0));
+            let b = Configuration::builder().do_(Box::new(CountLeaf { n: counter.clone() }) as Box<dyn Component<P>>);
+            let b = if i == 0 { b.evaluate_with::<Global>() } else { b.evaluate_with::<A>() };
+            let body = b.do_(Box::new(PeekEvals { seen: seen.clone() }) as Box<dyn Component<P>>).build_component();
+            let scope = Scope::new_with(init, body, |_, _| Ok(()));
+            match caught(|| scope.execute(problem, state)) {
+                Ok(Ok(())) => r("ok", seen.load(Ordering::SeqCst) as i64),
+                Ok(Err(_)) => r("err", counter.load(Ordering::SeqCst) as i64),
+                Err(_) => r("panic", counter.load(Ordering::SeqCst) as i64),
+            }
+        }
         "evaluate_missing" => {
             // a configuration that asks for an evaluator identifier nobody registered, run on a copy;
             // placement s: 0 top level, 1 loop body, 2 if body, 3 else body (taken), 4 else body (not taken)
@@ -224,6 +387,34 @@ fn exec(problem: &P, state: &mut State<'static, P>, a: &Value, k: usize) -> Valu
                 Err(_) => r("panic", counting.calls() as i64),
             }
         }
+        "user_mutation" | "user_mutation_v" => {
+            let c = UserMutation { s, fail_at: i.wrapping_add(1), validate_first: op == "user_mutation_v", seen: Arc::new(AtomicU32::new(0)) };
+            match caught(|| c.execute(problem, state)) {
+                Ok(Ok(())) => r("ok", 0),
+                Ok(Err(_)) => {
+                    let kept = settle_stack(state);
+                    r("err", kept)
+                }
+                Err(_) => r("panic", 0),
+            }
+        }
+        "user_select_replace" => {
+            // s = 0: both succeed; 1: the selection fails; 2: the replacement fails
+            let sel = UserSelection { i, fail: s == 1 };
+            let rep = UserReplacement { fail: s == 2 };
+            let res = caught(|| -> ExecResult<()> {
+                sel.execute(problem, state)?;
+                rep.execute(problem, state)
+            });
+            match res {
+                Ok(Ok(())) => r("ok", 0),
+                Ok(Err(_)) => {
+                    let kept = settle_stack(state);
+                    r("err", kept)
+                }
+                Err(_) => r("panic", 0),
+            }
+        }
         "update_best" => comp(problem, state, BestIndividualUpdate::new()),
         "init_run" => {
             // what the init phase of a configuration holding these components does at the start of a run
@@ -249,6 +440,7 @@ fn fresh_state(problem: &P, k: usize) -> State<'static, P> {
     let mut pops = Populations::<P>::new();
     pops.push(Vec::new());
     state.insert(pops);
+    state.insert(mahf::Random::new(1));
     state.insert_evaluator(Sequential::<P>::new());
     // the components' own init calls create Evaluations / BestIndividual / ElitistArchive
     PopulationEvaluator::new::<P>().init(problem, &mut state).unwrap();
@@ -312,7 +504,7 @@ pub fn main(args: &Args) -> usize {
                     let narch = state.borrow::<ElitistArchive<P>>().elitists().len();
                     let s = rng.gen_range(1..=nsols);
                     let a = loop {
-                        let pick = rng.gen_range(0..100);
+                        let pick = rng.gen_range(0..120);
                         let i = if n > 0 { rng.gen_range(1..=n) } else { 0 };
                         break match pick {
                             0..=11 if n < 12 => act("new", 0, s),
@@ -340,6 +532,17 @@ pub fn main(args: &Args) -> usize {
                             76 => act("evaluate_nested", 0, rng.gen_range(1..4)),
                             77..=85 if all_eval => act("update_best", 0, 0),
                             86 => act("init_run", 0, 0),
+                            100..=104 if n > 0 => act(if rng.gen_bool(0.5) { "user_mutation" } else { "user_mutation_v" }, rng.gen_range(0..=n), s),
+                            105..=107 if n > 0 && n < 11 => act("user_select_replace", i, rng.gen_range(0..3)),
+                            108..=111 => act("register", rng.gen_range(1..=3), [0, 1, 4][rng.gen_range(0..3)]),
+                            112..=115 => {
+                                let id = rng.gen_range(1..=2);
+                                if id == 2 && !state.contains::<mahf::state::common::Evaluator<P, A>>() {
+                                    continue;
+                                }
+                                act("evaluate_id", id, 0)
+                            }
+                            116..=119 => act("evaluate_scoped", rng.gen_range(1..=2), [9, 0, 1, 4, 10, 11, 14][rng.gen_range(0..7)]),
                             87..=94 if all_eval => act("archive_update", 0, 0),
                             95..=99 if n + narch < 14 => act("archive_into_population", 0, 0),
                             _ => continue,
